@@ -184,6 +184,11 @@ def _map_vars(
             tgt = _map_vars(tgt, varmap)
         elif role != '/' and tgt in varmap:
             tgt = varmap[tgt]
+        elif role != '/' and isinstance(tgt, str) and not tgt.startswith('"'):
+            # a reference may carry a surface alignment (e.g., v1~e.5)
+            stem, tilde, alignment = tgt.partition('~')
+            if tilde and stem in varmap:
+                tgt = varmap[stem] + tilde + alignment
         newbranches.append((role, tgt))
 
     return (varmap[var], newbranches)
